@@ -17,7 +17,7 @@ from .C01 import boost, rot, rotation_matrix
 from .common import EPS, facts, far, poly_sup_bound, prove_close_poly, tensor_of, term_of
 
 PID = "C02"
-LEVEL = "other"
+LEVEL = "model_checking"
 CLAIM = (
     "Bounded symbolic verification on real amplitude models built by ConfigLoader with spinning final-state particles (spin-1 parent "
     "with final spins 1, 1, 0 in three topologies; spin-1/2 parent with a spin-1/2 and a spin-1 final particle; a four-body decay with "
